@@ -44,6 +44,7 @@ class archive(dict):
     If key in keys is not found, d is returned if given, otherwise KeyError is raised."""
         if not hasattr(keys, '__iter__'):
             return self.pop(keys, *value)
+        keys = list(keys) # (may be an iterator, or a view of this dict)
         if len(value):
             return [self.pop(k, *value) for k in keys]
         memo = self.fromkeys(self.keys()) # 'shadow' dict for desired error behavior
